@@ -41,10 +41,16 @@ CONSTANTS
     SubCap,               \* capacity of a subscriber buffer
     SeqDetail,            \* TRUE: cache insert is a separate sequencer step
     Readers,              \* reader processes (strings)
+    ReadRevs,             \* revisions a read may name (0 = the current one)
+    MaxReads,             \* reads per reader
+    SnapAtTs,             \* engine parameter: TRUE: the iterator reads the snapshot of the timestamp fetched at the
+                          \*   start of the scan (TiKV); FALSE: the snapshot is taken when the iterator is opened
     Compactors,           \* compactor processes (strings), at most one
     CompactRevs,          \* revisions a compaction request may name
     MaxCompacts,          \* compaction requests per compactor
     DelFaults,            \* SUBSET {"err","cas","die"}: faults of compaction deletes
+    CompactDetail,        \* TRUE: the compactor takes one step per engine deletion (CStart / CIter / CDel);
+                          \*       FALSE: one request is one atomic step (CompactReq)
     EagerSeq,             \* generator bias: every event is flushed and broadcast before the next write starts
     FixedOps,             \* << >>, or the operation sequence every writer issues (generator configs)
     LazyWatchers,         \* watchers whose forwarding loop only runs when nothing else can (generator bias
@@ -114,6 +120,8 @@ WLocInit == [rev |-> 0, mod |-> 0, oldval |-> "-", old |-> NoIdx, res |-> "none"
 
 WatchReqSet == [start : WatchStarts, prefix : WatchPrefixes]
 XLocInit == [last |-> 0, res |-> "none", find |-> "none", evs |-> << >>, newest |-> 0, listed |-> FALSE, lrev |-> 0, lsnap |-> << >>]
+RdLocInit == [rev |-> 0, hdr |-> 0, seen |-> 0, fl0 |-> 0, n |-> 0, snapI |-> << >>, snapV |-> << >>]
+CLocInit == [rev |-> 0, todo |-> << >>, sidx |-> [k \in Keys |-> NoIdx], skip |-> 0, dead |-> FALSE]
 SubInit  == [reg |-> FALSE, closed |-> FALSE, buf |-> << >>, hand |-> << >>, hasHand |-> FALSE]
 
 Init ==
@@ -143,11 +151,11 @@ Init ==
     /\ emitted = << >>
     /\ acked = {} /\ maxRet = 0
     /\ rdpc = [r \in Readers |-> "idle"]
-    /\ rdloc = [r \in Readers |-> [rev |-> 0, hdr |-> 0]]
-    /\ rdreq = [r \in Readers |-> [kind |-> "none"]]
+    /\ rdloc = [r \in Readers |-> RdLocInit]
+    /\ rdreq = [r \in Readers |-> [kind |-> "none", rev |-> 0, key |-> 0]]
     /\ reads = {}
     /\ cpc = [c \in Compactors |-> "idle"]
-    /\ cloc = [c \in Compactors |-> [rev |-> 0, k |-> 0, todo |-> << >>, skip |-> 0, dead |-> FALSE]]
+    /\ cloc = [c \in Compactors |-> CLocInit]
     /\ creq = [c \in Compactors |-> 0]
     /\ cn = [c \in Compactors |-> 0]
     /\ fin = FALSE
@@ -287,9 +295,20 @@ CreateCas(w) ==
     /\ LET k == Op(w).key  r == wloc[w].rev IN
        CondCommit(w, "CreateCas", idx[k] = wloc[w].old,
                   [rev |-> r, del |-> FALSE], [rev |-> r, val |-> Op(w).val],
-                  "notify", "notify",
-                  [wloc[w] EXCEPT !.res = "cas", !.engDone = TRUE])
+                  "notify", "c_reget", wloc[w])
     /\ UNCHANGED <<floor, dealt, committed, slot, wops, wi, seqvars, chan, cache, rvars, xvars, acked, maxRet, emitted, kinit, rdvars, cvars>>
+
+\* the compare-and-swap lost: was the tombstoned index compacted meanwhile (the key is still
+\* absent: put-if-absent again), or did somebody write the key (a genuine conflict)?   gate: kv.get
+CreateReGet(w) ==
+    /\ wpc[w] = "c_reget"
+    /\ LET k == Op(w).key IN
+       IF idx[k] = NoIdx
+       THEN /\ wpc' = [wpc EXCEPT ![w] = "c_pine2"] /\ wloc' = wloc
+       ELSE /\ wpc' = [wpc EXCEPT ![w] = "notify"]
+            /\ wloc' = [wloc EXCEPT ![w].res = "cas", ![w].engDone = TRUE]
+    /\ H(w, "CreateReGet", "kv.get")
+    /\ UNCHANGED <<store, floor, dealt, committed, slot, wops, wi, seqvars, chan, cache, rvars, faults, xvars, acked, maxRet, emitted, kinit, rdvars, cvars>>
 
 \* update with expectation > 0: allocate; refuse expectations from the future   gate: deal
 UpdateDeal(w) ==
@@ -394,7 +413,7 @@ ReGet(w) ==
     /\ UNCHANGED <<store, floor, dealt, committed, slot, wloc, wops, seqvars, chan, cache, rvars, faults, xvars, emitted, kinit, rdvars, cvars>>
 
 WriterNext(w) ==
-    \/ CreateDeal(w) \/ CreatePine(w) \/ CreateGet(w) \/ CreatePine2(w) \/ CreateCas(w)
+    \/ CreateDeal(w) \/ CreatePine(w) \/ CreateGet(w) \/ CreatePine2(w) \/ CreateCas(w) \/ CreateReGet(w)
     \/ UpdateDeal(w) \/ UpdateCas(w)
     \/ DeleteGet(w) \/ DeleteDeal(w) \/ DeleteCas(w)
     \/ Notify(w) \/ ReGet(w)
@@ -617,11 +636,60 @@ CloseOut(w) ==
 WatcherNext(w) == ListFirst(w) \/ Subscribe(w) \/ CacheRead(w) \/ Decide(w) \/ Process(w) \/ CloseOut(w)
 
 -----------------------------------------------------------------------------
-\* COMPACTOR (backend.Compact): one request = clamp, raise the record, scan and delete. Atomic here;
-\* the record-by-record behaviour incl. failures and crashes is explored in KBSeq.tla / Scanner.tla.
+\* READERS (backend.List / backend.Get): a range read takes the committed revision as its header (and
+\* as its read revision when the request names none), fetches the engine timestamp, compares its
+\* revision with the compaction record, opens an iterator and scans the snapshot it gets.
+\*                                                     range.go:33-170, scanner.go:87-131, 231-262
 KeyLo == MinS(Keys)
 KeyHi == MaxS(Keys)
+ReadReqs == [kind : {"list"}, rev : ReadRevs, key : {0}] \cup [kind : {"get"}, rev : ReadRevs, key : Keys]
+RUnch == <<store, floor, dealt, committed, slot, wvars, seqvars, chan, cache, rvars, faults, xvars, acked, maxRet, emitted, kinit, cvars>>
+RangeOf(ix, vs, R) == WorkerRun(Records(ix, vs, KeyLo, KeyHi + 1), R, 0, FALSE, 0, {}).out
+PointOf(vs, k, R) == LET v == IF R = 0 THEN Latest(vs[k]) ELSE NewestLE(vs[k], R) IN
+                     IF IsLive(v) THEN <<[k |-> k, rev |-> v.rev, val |-> v.val]>> ELSE << >>
+ReadDone(r, refused, res) ==
+    /\ reads' = reads \cup {[p |-> r, refused |-> refused, n |-> rdloc[r].n, kind |-> rdreq[r].kind, key |-> rdreq[r].key, req |-> rdreq[r].rev,
+                             rev |-> rdloc[r].rev, hdr |-> rdloc[r].hdr, seen |-> rdloc[r].seen, fl0 |-> rdloc[r].fl0, fl1 |-> floor, res |-> res]}
+    /\ rdpc' = [rdpc EXCEPT ![r] = "idle"]
+
+\* request accepted: header and read revision                    parks at: kv.get (list) / kv.iter (get)
+RInvoke(r) ==
+    /\ rdpc[r] = "idle" /\ ~fin /\ rdloc[r].n < MaxReads
+    /\ \E q \in ReadReqs :
+         /\ rdreq' = [rdreq EXCEPT ![r] = q]
+         /\ rdloc' = [rdloc EXCEPT ![r] = [rev |-> IF q.rev = 0 /\ q.kind = "list" THEN committed ELSE q.rev, hdr |-> committed,
+                                            seen |-> maxRet, fl0 |-> floor, n |-> rdloc[r].n + 1,
+                                            snapI |-> IF SnapAtTs THEN idx ELSE << >>, snapV |-> IF SnapAtTs THEN ver ELSE << >>]]
+         /\ rdpc' = [rdpc EXCEPT ![r] = IF q.kind = "list" THEN "r_check" ELSE "r_iter"]
+         /\ HF(r, "RInvoke", "start", q.kind, q.rev * 16 + q.key)
+    /\ UNCHANGED <<RUnch, reads>>
+
+\* the read revision against the compaction record                                        gate: kv.get
+RCheck(r) ==
+    /\ rdpc[r] = "r_check"
+    /\ IF floor > rdloc[r].rev
+       THEN ReadDone(r, TRUE, << >>)
+       ELSE rdpc' = [rdpc EXCEPT ![r] = "r_iter"] /\ reads' = reads
+    /\ H(r, "RCheck", "kv.get")
+    /\ UNCHANGED <<RUnch, rdloc, rdreq>>
+
+\* the iterator is opened and the snapshot scanned                                          gate: kv.iter
+RIter(r) ==
+    /\ rdpc[r] = "r_iter"
+    /\ LET si == IF SnapAtTs /\ rdreq[r].kind = "list" THEN rdloc[r].snapI ELSE idx
+           sv == IF SnapAtTs /\ rdreq[r].kind = "list" THEN rdloc[r].snapV ELSE ver IN
+       ReadDone(r, FALSE, IF rdreq[r].kind = "list" THEN RangeOf(si, sv, rdloc[r].rev) ELSE PointOf(sv, rdreq[r].key, rdloc[r].rev))
+    /\ H(r, "RIter", "kv.iter")
+    /\ UNCHANGED <<RUnch, rdloc, rdreq>>
+
+ReaderNext(r) == RInvoke(r) \/ RCheck(r) \/ RIter(r)
+ReadersIdle == \A r \in Readers : rdpc[r] = "idle"
+
+-----------------------------------------------------------------------------
+\* COMPACTOR (backend.Compact): one request = clamp, raise the record, scan and delete. Atomic here;
+\* the record-by-record behaviour incl. failures and crashes is explored in KBSeq.tla / Scanner.tla.
 CompactReq(c) ==
+    /\ ~CompactDetail /\ ~fin
     /\ cn[c] < MaxCompacts
     /\ \E req \in CompactRevs :
          LET R0 == IF req = 0 \/ req > committed THEN committed ELSE req
@@ -635,7 +703,65 @@ CompactReq(c) ==
     /\ cn' = [cn EXCEPT ![c] = @ + 1]
     /\ UNCHANGED <<hver, dealt, committed, slot, wvars, seqvars, chan, cache, rvars, faults, xvars, acked, maxRet, emitted, kinit, rdvars, cpc, cloc, fin>>
 
-Quiescent == WritersDone /\ SeqIdle /\ retryQ = << >> /\ rpc = "idle"
+\* ---- the same request, one step per engine deletion (CompactDetail)
+\* the revision backend.Compact settles on: the request clamped to the committed revision and
+\* kept below the oldest unresolved operation                                   compact.go:30-43
+ClampRev(req) == LET R0 == IF req = 0 \/ req > committed THEN committed ELSE req IN
+                 IF retryQ # << >> /\ Head(retryQ).rev - 1 < R0 THEN Head(retryQ).rev - 1 ELSE R0
+DelAnswers == IF faults < FaultBudget THEN {"ok"} \cup DelFaults ELSE {"ok"}
+CUnch == <<hver, dealt, committed, slot, wpc, wops, wi, seqvars, chan, cache, rvars, xvars, acked, maxRet, emitted, kinit, rdvars, fin>>
+
+\* request accepted: clamp, raise the record, fetch the timestamp, check the record again, ask
+\* for the partitions; the worker is about to open its iterator                 parks at: kv.iter
+CStart(c) ==
+    /\ CompactDetail /\ ~fin /\ cpc[c] = "idle" /\ cn[c] < MaxCompacts
+    /\ \E req \in CompactRevs :
+         LET R == ClampRev(req) IN
+         /\ floor' = IF R > floor THEN R ELSE floor
+         /\ creq' = [creq EXCEPT ![c] = R]
+         /\ cloc' = [cloc EXCEPT ![c] = [CLocInit EXCEPT !.rev = R]]
+         /\ HF(c, "CStart", "start", "", req)
+    /\ cpc' = [cpc EXCEPT ![c] = "c_iter"]
+    /\ UNCHANGED <<idx, ver, wloc, faults, cn, CUnch>>
+
+\* the worker opens its iterator: the engine hands it a snapshot; everything it will delete is
+\* decided by that snapshot (Scanner!WorkerRun)                                  gate: kv.iter
+CIter(c) ==
+    /\ cpc[c] = "c_iter"
+    /\ LET run == WorkerRun(Records(idx, ver, KeyLo, KeyHi + 1), cloc[c].rev, 0, TRUE, 0, {}) IN
+       /\ cloc' = [cloc EXCEPT ![c].todo = run.dels, ![c].sidx = idx]
+       /\ cpc' = [cpc EXCEPT ![c] = IF run.dels = << >> THEN "idle" ELSE "c_del"]
+       /\ cn' = [cn EXCEPT ![c] = IF run.dels = << >> THEN @ + 1 ELSE @]
+    /\ H(c, "CIter", "kv.iter")
+    /\ UNCHANGED <<idx, ver, floor, wloc, faults, creq, CUnch>>
+
+\* one deletion: an old version / a tombstone (unconditional), or a tombstoned index record
+\* (compare-and-delete against the snapshot value).  A failed deletion makes the worker skip the
+\* rest of that key (except a lost compare-and-delete); "die": the worker ends here.
+\*                                                                         gate: kv.del / kv.delcur
+CDel(c) ==
+    /\ cpc[c] = "c_del"
+    /\ LET d == Head(cloc[c].todo)  k == d.k IN
+       \E a \in DelAnswers :
+         LET applied == a = "ok" /\ (d.r > 0 \/ idx[k] = cloc[c].sidx[k])
+             newskip == IF a = "err" \/ (a = "cas" /\ d.op = "del") THEN k ELSE cloc[c].skip
+             rest    == IF a = "die" THEN << >> ELSE SelectSeq(Tail(cloc[c].todo), LAMBDA x : x.k # newskip)
+             idx2    == IF applied /\ d.r = 0 THEN [idx EXCEPT ![k] = NoIdx] ELSE idx
+             ver2    == IF applied /\ d.r > 0 THEN [ver EXCEPT ![k] = {v \in @ : v.rev # d.r}] ELSE ver
+         IN
+         /\ faults' = IF a # "ok" THEN faults + 1 ELSE faults
+         /\ idx' = idx2 /\ ver' = ver2
+         /\ wloc' = DiffUpdate(wloc, k, idx2[k], ver2[k])
+         /\ cloc' = [cloc EXCEPT ![c].todo = rest, ![c].skip = newskip, ![c].dead = (a = "die")]
+         /\ cpc' = [cpc EXCEPT ![c] = IF rest = << >> THEN "idle" ELSE "c_del"]
+         /\ cn' = [cn EXCEPT ![c] = IF rest = << >> THEN @ + 1 ELSE @]
+         /\ HF(c, "CDel", IF d.op = "del" THEN "kv.del" ELSE "kv.delcur", a, 0)
+    /\ UNCHANGED <<floor, creq, CUnch>>
+
+CompactorNext(c) == CompactReq(c) \/ CStart(c) \/ CIter(c) \/ CDel(c)
+CompactorsIdle == \A c \in Compactors : cpc[c] = "idle"
+
+Quiescent == CompactorsIdle /\ ReadersIdle /\ WritersDone /\ SeqIdle /\ retryQ = << >> /\ rpc = "idle"
 AllDone0 == /\ Quiescent /\ (Watchers = {} \/ chan = << >>)    \* (nobody consumes chan without watchers)
            /\ \A w \in Watchers : /\ xpc[w] \in {"running", "refused", "closed"}
                                   /\ ~subs[w].hasHand /\ subs[w].buf = << >>
@@ -659,7 +785,8 @@ Next ==
          \/ RetryNext
          \/ (Watchers # {} /\ HubDeliver)
          \/ \E w \in Watchers : WatcherNext(w)
-         \/ \E c \in Compactors : CompactReq(c)
+         \/ \E c \in Compactors : CompactorNext(c)
+         \/ \E r \in Readers : ReaderNext(r)
          \/ Finish
 
 Fairness == /\ WF_vars(SeqNext) /\ WF_vars(RetryNext)
@@ -732,6 +859,29 @@ CompactClamp == \A i \in 1..Len(retryQ) : floor < retryQ[i].rev
 RepairStillPossible == \A i \in 1..Len(retryQ) : LET e == retryQ[i] IN
                           (\E v \in hver[e.key] : v.rev = e.rev) => (\E v \in ver[e.key] : v.rev = e.rev)
 
+\* ---- C07 under concurrency: whatever the compactor has deleted so far, every read at or above the
+\* floor sees what the full history prescribes, and every key stays writable
+SeenAt(vs, r) == LET v == NewestLE(vs, r) IN IF IsLive(v) THEN v ELSE NoVer
+ReadsPreserved == \A k \in Keys : \A r \in floor..MaxRev : SeenAt(ver[k], r) = SeenAt(hver[k], r)
+StaysWritable == \A k \in Keys : Writable(idx[k], ver[k])
+
+\* ---- C03 / C04 / C08 under concurrency: what a read process returned
+\* a range read that was answered with data at a revision that is still at or above the floor returned
+\* exactly the snapshot of the full history at that revision -- judged against everything written up
+\* to NOW, so a version at or below a readable revision that lands later is caught as well
+ReadJudged(x) == ~x.refused /\ x.rev > 0 /\ x.rev <= x.hdr /\ x.rev >= x.fl1
+ReadIsSnapshotC == \A x \in reads : ReadJudged(x) =>
+                      IF x.kind = "list" THEN x.res = RangeRef(hver, Keys, x.rev, KeyLo, KeyHi + 1, 0).kvs
+                                         ELSE x.res = PointOf(hver, x.key, x.rev)
+\* a range read that names no revision is served at the revision of its header.
+\* (NOT claimed, because it does not hold and no listed property asks for it: x.hdr >= x.seen. A write is
+\*  acknowledged when its event is handed to the sequencer; the committed revision follows later, so a
+\*  List without revision issued right after an acknowledged write can be served below that write.)
+ReadAtHeader == \A x \in reads : (x.req = 0 /\ x.kind = "list") => x.rev = x.hdr
+\* refused only below the record; below the record at the start: refused
+RefusedBelowFloor == \A x \in reads : /\ (x.refused => x.rev < x.fl1)
+                                       /\ ((x.kind = "list" /\ x.rev < x.fl0) => x.refused)
+
 \* every emitted event describes a stored version
 EventsMatchWrites ==
     \A i \in 1..Len(emitted) :
@@ -767,10 +917,10 @@ ListWatchAgree ==
 \* generator support: one JSON object per complete behaviour
 Final == [idx |-> idx, ver |-> ver, floor |-> floor, committed |-> committed, dealt |-> dealt, acked |-> acked,
           delivered |-> delivered, xres |-> [w \in Watchers |-> xloc[w].res], closed |-> outClosed,
-          retryQ |-> Len(retryQ), emitted |-> emitted]
+          retryQ |-> Len(retryQ), emitted |-> emitted, reads |-> reads]
 Behaviour == [kinit |-> kinit, wops |-> wops, xreq |-> xreq, steps |-> hist, final |-> Final]
 Dump == fin => PrintT(<<"BEHAVIOUR", ToJson(Behaviour)>>)
 
 View == <<idx, ver, floor, dealt, committed, slot, wpc, wloc, wops, wi, seqpc, seqev, batch, chan, cache,
-          retryQ, rpc, rloc, faults, subs, xpc, xloc, xreq, outClosed, delivered, emitted, acked, maxRet>>
+          retryQ, rpc, rloc, faults, subs, xpc, xloc, xreq, outClosed, delivered, emitted, acked, maxRet, cpc, cloc, cn, rdpc, rdloc, rdreq, reads>>
 =============================================================================
